@@ -1,5 +1,82 @@
-"""Counterexample search / replay against the real crate (filled in below)."""
-def search_counterexample(repo, verif, failure, scratch, seed):
+"""Counterexample search / replay against the real crate (public API), through /verif/replay.
+
+Not a decider.  Used (a) to attach a concrete failing input to a violation the verifier reported,
+(b) as the tie-breaker when a changed function makes the solver run out of resources: a failing
+input found on the real code turns 'undecided' into a violation with a replay."""
+import json, os, re, shutil, subprocess
+
+VERIF = os.path.dirname(os.path.dirname(os.path.abspath(__file__)))
+
+# verifier unit -> replay drivers that exercise it
+UNIT_MAP = {
+    'value_stack': ['value_stack'],
+    'bounded_stack': ['bounded_stack'],
+    'handle_table': ['handle_table'],
+    'hash_map': ['hash_map', 'cao_lang_table'],
+    'cao_lang_table': ['cao_lang_table'],
+}
+_built = {}
+
+def build(repo, scratch):
+    key = (repo, scratch)
+    if key in _built:
+        return _built[key]
+    d = os.path.join(scratch, 'replay')
+    if os.path.exists(d):
+        shutil.rmtree(d)
+    shutil.copytree(os.path.join(VERIF, 'replay'), d, ignore=shutil.ignore_patterns('target'))
+    toml = open(os.path.join(d, 'Cargo.toml')).read().replace('REPO_PATH', os.path.abspath(repo))
+    open(os.path.join(d, 'Cargo.toml'), 'w').write(toml)
+    shutil.copy(os.path.join(repo, 'Cargo.lock'), os.path.join(d, 'Cargo.lock'))
+    env = dict(os.environ, CARGO_NET_OFFLINE='true', CARGO_TARGET_DIR=os.path.join(scratch, 'replay-target'))
+    p = subprocess.run(['cargo', 'build', '--offline', '--release', '-q'], cwd=d, capture_output=True, text=True, env=env, timeout=1800)
+    exe = os.path.join(scratch, 'replay-target', 'release', 'cao-replay')
+    if p.returncode != 0 or not os.path.exists(exe):
+        raise RuntimeError('replay crate does not build against this tree: ' + p.stderr[-800:])
+    _built[key] = exe
+    return exe
+
+def _parse_fail(out):
+    for line in out.splitlines():
+        m = re.match(r'FAIL unit=(\S+) variant=(\d+) step=(\d+) ops=(\S+) what=(.*)$', line)
+        if m:
+            return dict(driver=m.group(1), variant=int(m.group(2)), step=int(m.group(3)), ops=m.group(4), observed=m.group(5))
     return None
+
+def search_unit(repo, scratch, unit, seed, iters=30000):
+    drivers = UNIT_MAP.get(unit)
+    if not drivers:
+        return None
+    exe = build(repo, scratch)
+    for drv in drivers:
+        for s in (seed, seed + 1, seed + 2):
+            p = subprocess.run([exe, drv, 'search', str(s + 1), str(iters)], capture_output=True, text=True, timeout=900)
+            f = _parse_fail(p.stdout)
+            if f:
+                f['how_to_replay'] = 'bin/check <property> --replay <this file>  (re-runs: cao-replay %s replay %d %s)' % (drv, f['variant'], f['ops'])
+                return f
+            if p.returncode not in (0, 1):
+                # a crash / hang of the real code under the driver is itself a failing input
+                return dict(driver=drv, variant=-1, step=-1, ops='', observed='driver terminated abnormally (rc=%s): %s' % (p.returncode, (p.stderr or '')[-300:]))
+    return None
+
+def search_counterexample(repo, verif, failure, scratch, seed):
+    unit = failure.get('unit') or ''
+    return search_unit(repo, scratch, unit, seed)
+
 def run_replay_file(repo, path):
-    print('replay not implemented yet'); return 2
+    rep = json.load(open(path))
+    fi = rep.get('failing_input')
+    if not fi or not fi.get('ops'):
+        print('replay file has no executable failing input (obligation: %s)' % rep.get('obligation'))
+        print(rep.get('verifier_output', '')[:2000])
+        return 2
+    import tempfile
+    scratch = tempfile.mkdtemp(prefix='caoreplay-')
+    try:
+        exe = build(repo, scratch)
+        p = subprocess.run([exe, fi['driver'], 'replay', str(fi['variant']), fi['ops']], capture_output=True, text=True, timeout=600)
+        print(p.stdout.strip())
+        return 1 if _parse_fail(p.stdout) or p.returncode not in (0,) else 0
+    finally:
+        shutil.rmtree(scratch, ignore_errors=True)
